@@ -11,6 +11,9 @@ import json
 import os
 import sys
 import time
+import tempfile
+import shutil
+import subprocess
 import traceback
 
 from .model import Model, AnalysisError
@@ -167,6 +170,9 @@ def run_property(prop, tier, seed, repo, write_evidence=True, quiet=False):
     say(f'  {f.loc} {f.function} [{f.rule}] {f.construct}: {f.message}')
     rc = 1
 
+  selftest = None
+  if tier == 'thorough' and rc == 0 and write_evidence:
+    selftest = checker_selftest(prop, repo, say)
   wall = time.time() - t0
   mod_doc = (mod.__doc__ or '').strip()
   ev = dict(
@@ -191,6 +197,7 @@ def run_property(prop, tier, seed, repo, write_evidence=True, quiet=False):
           checker_cmd=f'./check {prop} --tier {tier}',
           trusted_base=['python ast', 'pvstatic abstract evaluator and rule tables', 'sympy (normal forms)'],
           exhaustive=False,
+          checker_selftest=selftest,
       ),
       assumptions=ctx.assumptions + getattr(mod, 'ASSUMPTIONS', []),
       wall_s=round(wall, 3),
@@ -205,6 +212,76 @@ def run_property(prop, tier, seed, repo, write_evidence=True, quiet=False):
     say(f'{prop} [{tier}] obligations={ctx.obligations} discharged={ctx.discharged} '
         f'violations={len(new)} known={len(listed)} functions={len(ctx.functions)} wall={wall:.2f}s')
   return rc, out
+
+
+def checker_selftest(prop, repo, say):
+  """Thorough tier only, and only when the tree under analysis is clean for `prop`: apply every
+  catalogue mutant / twin and every confirmed seeded change for this property to scratch copies of
+  the analysed tree (under /tmp, removed straight away) and run the quick rules on each.  This is
+  evidence about the checker (what it distinguishes on today's code); it never changes the verdict
+  on the tree itself.  Entries whose anchor text is absent from the analysed tree are skipped."""
+  import importlib.util
+  from concurrent.futures import ThreadPoolExecutor
+  sp = importlib.util.spec_from_file_location('pv_selftest_run', os.path.join(VERIF, 'selftest', 'run.py'))
+  st = importlib.util.module_from_spec(sp)
+  sp.loader.exec_module(st)
+  entries = []
+  for e in st.load_catalogue():
+    if prop in e['props']:
+      e = dict(e, props=[prop])
+      entries.append(e)
+  res = dict(mutants=0, mutants_reported=0, twins=0, twins_silent=0, seeds=0, seeds_reported=0, skipped=0, problems=[])
+  jobs = max(2, min(14, (os.cpu_count() or 4) - 2))
+  with ThreadPoolExecutor(jobs) as ex:
+    for entry, status, out in ex.map(lambda e: st.run_one(e, 'quick', repo), entries):
+      kind = entry.get('kind', 'mutant')
+      if status == 'STALE':
+        res['skipped'] += 1
+        continue
+      rc = out[prop][0]
+      if kind == 'mutant':
+        res['mutants'] += 1
+        if rc == 1:
+          res['mutants_reported'] += 1
+        else:
+          res['problems'].append(f'mutant {entry["name"]}: rc={rc}')
+      else:
+        res['twins'] += 1
+        if rc == 0:
+          res['twins_silent'] += 1
+        else:
+          res['problems'].append(f'twin {entry["name"]}: rc={rc}')
+    sd = os.path.join(VERIF, 'seeded')
+    seeds = sorted(d for d in (os.listdir(sd) if os.path.isdir(sd) else []) if d.startswith(prop + '-') and
+                   os.path.exists(os.path.join(sd, d, 'patch.diff')))
+
+    def seed_one(sid):
+      tmp = tempfile.mkdtemp(prefix='pvseed_', dir='/tmp')
+      try:
+        shutil.copytree(os.path.join(repo, 'precondition'), os.path.join(tmp, 'precondition'))
+        r = subprocess.run(['patch', '-p1', '-s', '-d', tmp, '-i', os.path.join(sd, sid, 'patch.diff')], capture_output=True, text=True)
+        if r.returncode != 0:
+          return sid, None
+        env = dict(os.environ, PYTHONPATH=VERIF, PYTHONDONTWRITEBYTECODE='1')
+        r = subprocess.run([sys.executable, '-m', 'pvstatic.driver', prop, '--tier', 'quick', '--repo', tmp, '--no-evidence'],
+                           capture_output=True, text=True, cwd=VERIF, env=env)
+        return sid, r.returncode
+      finally:
+        shutil.rmtree(tmp, ignore_errors=True)
+    for sid, rc in ex.map(seed_one, seeds):
+      if rc is None:
+        res['skipped'] += 1
+        continue
+      res['seeds'] += 1
+      if rc == 1:
+        res['seeds_reported'] += 1
+      else:
+        res['problems'].append(f'seed {sid}: rc={rc}')
+  for pr in res['problems']:
+    say(f'SELFTEST-NOTE property={prop} {pr}')
+  say(f'{prop} checker self-test: mutants reported {res["mutants_reported"]}/{res["mutants"]}, twins silent '
+      f'{res["twins_silent"]}/{res["twins"]}, seeded changes reported {res["seeds_reported"]}/{res["seeds"]}, skipped {res["skipped"]}')
+  return res
 
 
 def main(argv=None):
